@@ -557,6 +557,13 @@ inline void apply_crate_op(World& w, S& s, Ctx& ctx, int mask)
             {
                 // bias towards the interesting shapes: move a crate that has descendants, and aim at one of them now and then
                 uint64_t bias = s.below(6);
+                if (bias >= 4)
+                    for (auto i : lc)
+                    {   // once ids no longer grow with depth, aim at that shape much more often
+                        auto sub_i = w.subtree(w.crates[i].id);
+                        if (!sub_i.empty() && *sub_i.begin() < w.crates[i].id)
+                            bias = 0;
+                    }
                 if (bias <= 2)
                     for (auto i : lc)
                         if (!w.subtree(w.crates[i].id).empty() && (bias == 0 || s.coin()))
@@ -564,12 +571,39 @@ inline void apply_crate_op(World& w, S& s, Ctx& ctx, int mask)
                             c = &w.crates[i];
                             break;
                         }
+                if (bias == 0)
+                    for (auto i : lc)
+                    {   // a crate that has an OLDER crate (smaller id) somewhere below it, the result of an earlier older-under-newer move
+                        auto sub_i = w.subtree(w.crates[i].id);
+                        if (!sub_i.empty() && *sub_i.begin() < w.crates[i].id && s.coin())
+                        {
+                            c = &w.crates[i];
+                            break;
+                        }
+                    }
                 auto sub = w.subtree(c->id);
                 if (bias == 0 && !sub.empty())
                 {
                     auto it = sub.begin();
-                    std::advance(it, s.below(sub.size()));
+                    if (!(*it < c->id && s.coin()))   // half of the time the oldest descendant when it is older than the crate itself
+                        std::advance(it, s.below(sub.size()));
                     t = w.by_id(*it);
+                }
+                if (bias == 3 && lc.size() >= 2)
+                {   // a legal move of an older crate under a newer one (ids then no longer grow with depth)
+                    CrateM* newest = &w.crates[lc.back()];
+                    for (auto i : lc)
+                        if (w.crates[i].id > newest->id)
+                            newest = &w.crates[i];
+                    std::vector<CrateM*> older;
+                    for (auto i : lc)
+                        if (w.crates[i].id < newest->id && !w.subtree(w.crates[i].id).count(newest->id))
+                            older.push_back(&w.crates[i]);
+                    if (!older.empty())
+                    {
+                        c = older[s.below(older.size())];
+                        t = newest;
+                    }
                 }
             }
             int64_t tid = t ? t->id : 0;
@@ -581,6 +615,8 @@ inline void apply_crate_op(World& w, S& s, Ctx& ctx, int mask)
             {
                 w.cycle_attempt = true;
                 ctx.label("cycle-attempt");
+                if (t->id < c->id)
+                    ctx.label(std::string(w.v2 ? "2.x:" : "1.x:") + "cycle-attempt:onto-older-descendant");
                 if (t->id != c->id && ctx.exclude(w.v2 ? "v2_set_parent_to_descendant" : "v1_set_parent_to_descendant"))
                     return;
                 expect_throw_unchanged("re-parenting crate " + std::to_string(c->id) + " under itself/its descendant " + std::to_string(tid),
@@ -609,6 +645,8 @@ inline void apply_crate_op(World& w, S& s, Ctx& ctx, int mask)
                 }
                 if (w.order[tid].empty())
                     ctx.label("move-into-empty-parent");
+                if (t && c->id < t->id)
+                    ctx.label("move:older-under-newer");
                 if (tid != c->parent)
                 {
                     erase_from(w.order[c->parent], c->id);
@@ -939,6 +977,7 @@ inline void prelude_deep(World& w, S& h, Ctx& ctx)
     if (!r)
         return;
     int64_t cur = r->id;
+    const int64_t first_root_id = r->id;
     size_t depth = 2 + h.below(3);
     for (size_t i = 1; i < depth && cur; ++i)
     {
@@ -947,8 +986,27 @@ inline void prelude_deep(World& w, S& h, Ctx& ctx)
             mk_sub(cur, nm());  // a sibling on the way down
         cur = next;
     }
-    mk_root(nm());
-    w.hist += " | prelude_deep(" + std::to_string(w.live_crates().size()) + " crates, depth " + std::to_string(w.max_depth) + ")";
+    CrateM* last_root = mk_root(nm());
+    bool inverted = false;
+    if (last_root && h.below(3) == 0)
+    {
+        // invert the age order: the first (oldest) root with everything below it goes under the newest root, so that a crate has
+        // descendants with smaller ids than its own
+        CrateM* first = w.by_id(first_root_id);
+        CrateM* newest = w.by_id(last_root->id);
+        if (first && newest && first->id < newest->id && !w.sibling_name_exists(newest->id, first->name))
+        {
+            first->handle.set_parent(newest->handle);
+            erase_from(w.order[0], first->id);
+            first->parent = newest->id;
+            w.order[newest->id].push_back(first->id);
+            for (auto i : w.live_crates())
+                w.max_depth = std::max(w.max_depth, w.depth_of(w.crates[i].id));
+            inverted = true;
+            ctx.label("prelude:inverted-ages");
+        }
+    }
+    w.hist += " | prelude_deep(" + std::to_string(w.live_crates().size()) + " crates, depth " + std::to_string(w.max_depth) + (inverted ? ", oldest root moved under the newest" : "") + ")";
 }
 
 // ------------------------------------------------------------------------------------------------------ C07
